@@ -12,6 +12,7 @@ mod real;
 mod harness;
 mod pipes;
 mod probes;
+mod procs;
 mod rng;
 mod shellrun;
 mod sim;
